@@ -3,6 +3,7 @@ package rules
 import (
 	"fmt"
 	"go/ast"
+	"go/parser"
 	"go/token"
 	"go/types"
 	"sort"
@@ -115,6 +116,32 @@ func (e *Env) perFileStores(info *types.Info, lit *ast.FuncLit, body *ast.BlockS
 			}
 			id, ok := ix.X.(*ast.Ident)
 			if !ok {
+				// a line set kept in a field (f.avoid[line] = true): the field must be given a new
+				// map inside the pass, otherwise the set of one file is still there for the next
+				if se, isSel := ast.Unparen(ix.X).(*ast.SelectorExpr); isSel {
+					fv, isField := info.Uses[se.Sel].(*types.Var)
+					mt, isMap := info.TypeOf(se).Underlying().(*types.Map)
+					if isField && fv.IsField() && isMap && types.Identical(mt.Key(), types.Typ[types.Int]) && !seen[fv] {
+						seen[fv] = true
+						*n++
+						fresh := false
+						ast.Inspect(lit.Body, func(m ast.Node) bool {
+							if a2, ok := m.(*ast.AssignStmt); ok && len(a2.Lhs) == 1 && len(a2.Rhs) == 1 {
+								if l2, ok := a2.Lhs[0].(*ast.SelectorExpr); ok && info.Uses[l2.Sel] == types.Object(fv) {
+									switch r := ast.Unparen(a2.Rhs[0]).(type) {
+									case *ast.CompositeLit:
+										fresh = len(r.Elts) == 0
+									case *ast.CallExpr:
+										fresh = types.ExprString(r.Fun) == "make"
+									}
+								}
+							}
+							return true
+						})
+						e.Run.Check("R-FILESCOPE", "processFile: "+fv.Name()+" (written per file) is allocated per file", e.Prog.Pos(as.Pos()), fresh,
+							"the set lives in the field "+fv.Name()+" and the per-file pass never gives it a new map: when a package is decorated, entries of one file (line numbers) leak into the files processed after it")
+					}
+				}
 				continue
 			}
 			obj := info.Uses[id]
@@ -122,6 +149,17 @@ func (e *Env) perFileStores(info *types.Info, lit *ast.FuncLit, body *ast.BlockS
 				continue
 			}
 			if _, isVar := obj.(*types.Var); !isVar {
+				continue
+			}
+			// a store through a parameter of a merged helper is a store into the variable it is bound to
+			for hops := 0; hops < 4 && passHelperParams[obj]; hops++ {
+				a := passHelperArg[obj]
+				if a == nil {
+					break
+				}
+				obj = a
+			}
+			if passHelperParams[obj] || seen[obj] {
 				continue
 			}
 			seen[obj] = true
@@ -253,10 +291,19 @@ func (e *Env) RNewlineScan() {
 		e.Run.Undecided("R-SCAN", "per-file pass of fragment()", e.Prog.Pos(fd.Pos()), "no function that fragment() calls for an *ast.File and for each file of an *ast.Package")
 		return
 	}
+	// locals print as their definitions within the pass (which may be a merged body)
+	undoR := c.InstallReachingIn(lit.Body)
+	defer undoR()
+	il := func(x ast.Expr) string {
+		if x == nil {
+			return ""
+		}
+		return c.ExprStr(x)
+	}
 	var loop *ast.ForStmt
 	ast.Inspect(lit.Body, func(n ast.Node) bool {
 		if fs, ok := n.(*ast.ForStmt); ok && fs.Init != nil && fs.Cond != nil && fs.Post != nil {
-			if strings.Contains(e.inlineLocals(c, info, fd, initRHS(fs.Init), fs.End(), 0), ".Base()") {
+			if strings.Contains(il(initRHS(fs.Init)), ".Base()") {
 				loop = fs
 			}
 		}
@@ -269,7 +316,7 @@ func (e *Env) RNewlineScan() {
 		var tloop *ast.ForStmt
 		ast.Inspect(lit.Body, func(n ast.Node) bool {
 			if fs, ok := n.(*ast.ForStmt); ok && fs.Init != nil && fs.Cond != nil && fs.Post != nil {
-				if be, ok := fs.Cond.(*ast.BinaryExpr); ok && strings.HasSuffix(e.inlineLocals(c, info, fd, be.Y, fs.End(), 0), ".LineCount()") {
+				if be, ok := fs.Cond.(*ast.BinaryExpr); ok && strings.HasSuffix(il(be.Y), ".LineCount()") {
 					tloop = fs
 				}
 			}
@@ -302,14 +349,14 @@ func (e *Env) RNewlineScan() {
 				switch x := m.(type) {
 				case *ast.BinaryExpr:
 					if x.Op == token.LAND && x.Y.Pos() <= call.Pos() && call.End() <= x.Y.End() {
-						l := e.inlineLocals(c, info, fd, x.X, tloop.End(), 0)
+						l := il(x.X)
 						if strings.HasPrefix(l, lvar+" < ") && strings.HasSuffix(l, ".LineCount()") {
 							in = true
 						}
 					}
 				case *ast.IfStmt:
 					if x.Body.Pos() <= call.Pos() && call.End() <= x.Body.End() {
-						l := e.inlineLocals(c, info, fd, x.Cond, tloop.End(), 0)
+						l := il(x.Cond)
 						if strings.HasPrefix(l, lvar+" < ") && strings.HasSuffix(l, ".LineCount()") {
 							in = true
 						}
@@ -327,12 +374,15 @@ func (e *Env) RNewlineScan() {
 		return
 	}
 	pos := e.Prog.Pos(loop.Pos())
-	initS := e.inlineLocals(c, info, fd, initRHS(loop.Init), loop.End(), 0)
+	initS := il(initRHS(loop.Init))
 	var condS string
 	var ivar string
 	if be, ok := loop.Cond.(*ast.BinaryExpr); ok && be.Op == token.LSS {
 		ivar = c.ExprStr(be.X)
-		condS = e.inlineLocals(c, info, fd, be.Y, loop.End(), 0)
+		condS = il(be.Y)
+		for strings.HasPrefix(condS, "(") && strings.HasSuffix(condS, ")") && balanced(condS[1:len(condS)-1]) {
+			condS = condS[1 : len(condS)-1]
+		}
 	}
 	postOK := stmtNorm(c, loop.Post) == ivar+"++"
 	recv := strings.TrimSuffix(initS, ".Base()")
@@ -356,7 +406,7 @@ func (e *Env) RNewlineScan() {
 		in := false
 		ast.Inspect(loop.Body, func(m ast.Node) bool {
 			if is, ok := m.(*ast.IfStmt); ok && is.Body.Pos() <= call.Pos() && call.End() <= is.Body.End() {
-				cond := e.inlineLocals(c, info, fd, is.Cond, loop.End(), 0)
+				cond := il(is.Cond)
 				if strings.HasPrefix(cond, ivar+" < ") && (strings.HasSuffix(cond, " - 1") || strings.HasSuffix(cond, "-1")) {
 					in = true
 				}
@@ -685,33 +735,275 @@ func (e *Env) RParenSync() {
 	e.Run.Floor("R-PAREN", "import declarations whose specs updateImports changes", n, 2)
 }
 
-// RHangGuard: in link(), the spoofed end indent of a clause without items is applied only when
-// the clause starts and ends on the same line.
+// RHangGuard: in link(), the search for the hanging comments of a case / comm clause is made with
+// the indent of the clause's body, start+1, wherever the last line of the clause sits: a clause
+// without items ends on the line it starts on (end == start), a clause whose last statement is
+// wrapped ends on a continuation line (end >= start+2). The rule follows the local that is read
+// from endIndents:
+//
+//	H1  every write to it after its definition gives it the value start+1: `end = start + 1`, or
+//	    an increment that executes only when start == end;
+//	H2  for a node that is a CaseClause, and for one that is a CommClause, every path from the
+//	    definition to the hanging test reaches such a write (or has end == start+1 already);
+//	H3  a node of another kind never reaches the unconditional form.
+//
+// The path conditions are taken relative to the definition of the local; the tests of the node's
+// kind (comma-ok assertions and type-switch clauses on *ast.CaseClause / *ast.CommClause) are
+// fixed per kind, every other condition is left free.
 func (e *Env) RHangGuard() {
 	pkg := e.Prog.Pkg(load.PkgDecorator)
 	c := e.Sib.Ctx[load.PkgDecorator]
+	info := pkg.TypesInfo
 	fd := load.FuncDecl(pkg, "fileDecorator", "link")
 	if fd == nil || fd.Body == nil {
 		return
 	}
-	n := 0
+	// the locals that hold the two indents of the node, and the booleans that say it is a clause
+	var startV, endV types.Object
+	var endDef ast.Stmt
+	var startKey, endKey string
+	kindVar := map[string]string{}
 	ast.Inspect(fd.Body, func(nd ast.Node) bool {
-		inc, ok := nd.(*ast.IncDecStmt)
-		if !ok || c.ExprStr(inc.X) != "end" || inc.Tok != token.INC {
+		as, ok := nd.(*ast.AssignStmt)
+		if !ok || as.Tok != token.DEFINE || len(as.Rhs) != 1 {
 			return true
 		}
-		n++
-		pc, okp := pathCond(c, fd.Body.List, inc)
-		un, dec := unsatWith(pc, "start != end")
-		if !okp || !dec {
-			e.Run.Undecided("R-HANG", "link: the end indent is spoofed only for a clause that starts and ends on one line", e.Prog.Pos(inc.Pos()), "path condition outside the propositional subset: "+pc)
-			return true
+		if len(as.Lhs) == 1 {
+			id, _ := as.Lhs[0].(*ast.Ident)
+			ix, _ := ast.Unparen(as.Rhs[0]).(*ast.IndexExpr)
+			if id == nil || ix == nil {
+				return true
+			}
+			if sel, ok := ast.Unparen(ix.X).(*ast.SelectorExpr); ok {
+				switch sel.Sel.Name {
+				case "startIndents":
+					if startV == nil {
+						startV, startKey = info.Defs[id], c.ExprStr(ix.Index)
+					}
+				case "endIndents":
+					if endV == nil {
+						endV, endDef, endKey = info.Defs[id], as, c.ExprStr(ix.Index)
+					}
+				}
+			}
 		}
-		e.Run.Check("R-HANG", "link: the end indent is spoofed only for a clause that starts and ends on one line", e.Prog.Pos(inc.Pos()), un,
-			"`end++` executes when «"+pc+"»; without the start == end test every clause with a body loses the hanging-indent handling and its trailing comments attach to the next clause")
+		if len(as.Lhs) == 2 {
+			id, _ := as.Lhs[1].(*ast.Ident)
+			ta, _ := ast.Unparen(as.Rhs[0]).(*ast.TypeAssertExpr)
+			if id == nil || ta == nil || ta.Type == nil || id.Name == "_" {
+				return true
+			}
+			if p, nme := namedOf(info.TypeOf(ta.Type)); p == "go/ast" && (nme == "CaseClause" || nme == "CommClause") {
+				kindVar[id.Name] = nme
+			}
+		}
 		return true
 	})
-	e.Run.Floor("R-HANG", "spoofed end indents in link", n, 1)
+	const cons = "link: the hanging comments of a case / comm clause are searched at the indent of its body"
+	if startV == nil || endV == nil || startKey != endKey {
+		e.Run.Floor("R-HANG", "spoofed end indents in link", 0, 1)
+		return
+	}
+	startN, endN := startV.Name(), endV.Name()
+	// the statements from the definition on, in the list that holds the definition
+	var rel []ast.Stmt
+	ast.Inspect(fd.Body, func(nd ast.Node) bool {
+		var list []ast.Stmt
+		switch v := nd.(type) {
+		case *ast.BlockStmt:
+			list = v.List
+		case *ast.CaseClause:
+			list = v.Body
+		case *ast.CommClause:
+			list = v.Body
+		}
+		for i, st := range list {
+			if st == endDef {
+				rel = list[i:]
+			}
+		}
+		return rel == nil
+	})
+	isStartPlus1 := func(x ast.Expr) bool {
+		be, ok := ast.Unparen(x).(*ast.BinaryExpr)
+		if !ok || be.Op != token.ADD {
+			return false
+		}
+		l, r := ast.Unparen(be.X), ast.Unparen(be.Y)
+		if lit, ok := l.(*ast.BasicLit); ok && lit.Value == "1" {
+			l, r = r, l
+		}
+		id, ok1 := l.(*ast.Ident)
+		lit, ok2 := r.(*ast.BasicLit)
+		return ok1 && ok2 && info.Uses[id] == startV && lit.Value == "1"
+	}
+	isEnd := func(x ast.Expr) bool {
+		id, ok := ast.Unparen(x).(*ast.Ident)
+		return ok && info.Uses[id] == endV
+	}
+	type write struct {
+		at     ast.Stmt
+		incr   bool // end++, end += 1, end = end + 1
+		direct bool // end = start + 1
+	}
+	var writes []write
+	ast.Inspect(fd.Body, func(nd ast.Node) bool {
+		switch v := nd.(type) {
+		case *ast.IncDecStmt:
+			if isEnd(v.X) {
+				writes = append(writes, write{at: v, incr: v.Tok == token.INC})
+			}
+		case *ast.AssignStmt:
+			if v == endDef {
+				return true
+			}
+			for i, l := range v.Lhs {
+				if !isEnd(l) {
+					continue
+				}
+				w := write{at: v}
+				if len(v.Lhs) == len(v.Rhs) {
+					r := v.Rhs[i]
+					one := func(x ast.Expr) bool {
+						lit, ok := ast.Unparen(x).(*ast.BasicLit)
+						return ok && lit.Value == "1"
+					}
+					switch v.Tok {
+					case token.ASSIGN:
+						w.direct = isStartPlus1(r)
+						if be, ok := ast.Unparen(r).(*ast.BinaryExpr); ok && be.Op == token.ADD &&
+							(isEnd(be.X) && one(be.Y) || isEnd(be.Y) && one(be.X)) {
+							w.incr = true
+						}
+					case token.ADD_ASSIGN:
+						w.incr = one(r)
+					}
+				}
+				writes = append(writes, w)
+			}
+		}
+		return true
+	})
+	saved := c.TypeSwitchConds
+	c.TypeSwitchConds = true
+	defer func() { c.TypeSwitchConds = saved }()
+	type reached struct {
+		w  write
+		pc guardExpr
+	}
+	var rs []reached
+	atoms := map[string]bool{}
+	for _, w := range writes {
+		pos := e.Prog.Pos(w.at.Pos())
+		if !w.incr && !w.direct {
+			e.Run.Check("R-HANG", cons, pos, false,
+				"the write at "+pos+" gives the end indent a value that is neither "+startN+"+1 nor an increment: the comments behind a clause are searched at another indent than that of its body")
+			continue
+		}
+		pc, okp := "", false
+		if rel != nil {
+			pc, okp = pathCond(c, rel, w.at)
+		}
+		g := parseGuard(pc)
+		if !okp || !g.ok {
+			e.Run.Undecided("R-HANG", cons, pos, "path condition outside the propositional subset: "+pc)
+			return
+		}
+		if w.incr {
+			un, dec := unsatWith(pc, startN+" != "+endN)
+			if !dec {
+				e.Run.Undecided("R-HANG", cons, pos, "path condition outside the propositional subset: "+pc)
+				return
+			}
+			if !un {
+				e.Run.Check("R-HANG", cons, pos, false,
+					"the increment of the end indent executes when «"+pc+"»; without the "+startN+" == "+endN+" test a clause with a body gets "+startN+"+2, loses the hanging-indent handling, and its trailing comments attach to the next clause")
+				continue
+			}
+		}
+		if g.expr != nil {
+			collectAtoms(g.expr, atoms)
+		}
+		rs = append(rs, reached{w, g})
+	}
+	// conditions that say the end indent is start+1 already
+	seKey, _ := atomKey(mustParseExpr(startN + " != " + endN))
+	var eqAtoms []string
+	for a := range atoms {
+		switch strings.NewReplacer("(", "", ")", "").Replace(a) {
+		case endN + " != " + startN + " + 1", startN + " + 1 != " + endN, endN + " != 1 + " + startN, "1 + " + startN + " != " + endN:
+			eqAtoms = append(eqAtoms, a)
+		}
+	}
+	vals, ok := valuations(atoms, 12)
+	if !ok {
+		e.Run.Undecided("R-HANG", cons, e.Prog.Pos(endDef.Pos()), "too many conditions between the definition of the end indent and its writes")
+		return
+	}
+	kindOfAtom := func(a string) string {
+		if k, ok := kindVar[a]; ok {
+			return k
+		}
+		for _, k := range []string{"CaseClause", "CommClause"} {
+			if strings.HasPrefix(a, "ok(") && (strings.HasSuffix(a, ".(*ast."+k+"))") || strings.HasSuffix(a, ".(*"+k+"))")) {
+				return k
+			}
+		}
+		return ""
+	}
+	n := 0
+	for _, world := range []string{"CaseClause", "CommClause", ""} {
+		bad := ""
+	vals:
+		for _, v := range vals {
+			for a, tv := range v {
+				if k := kindOfAtom(a); k != "" && tv != (k == world) {
+					continue vals
+				}
+			}
+			atBody := false
+			for _, a := range eqAtoms {
+				atBody = atBody || !v[a]
+			}
+			if sv, has := v[seKey]; atBody && has && !sv {
+				// start == end: the end indent is not start+1
+				continue
+			}
+			hit, direct := false, false
+			for _, r := range rs {
+				if evalGuard(r.pc.expr, v) {
+					hit = true
+					direct = direct || r.w.direct
+				}
+			}
+			switch {
+			case world != "" && !hit && !atBody:
+				bad = valString(v)
+				break vals
+			case world == "" && direct:
+				bad = valString(v)
+				break vals
+			}
+		}
+		n++
+		if world != "" {
+			e.Run.Check("R-HANG", cons+" ("+world+")", e.Prog.Pos(endDef.Pos()), bad == "",
+				"a "+world+" keeps an end indent other than "+startN+"+1 when «"+bad+"»: the comments at the end of its body are not found by the hanging-indent search, attach to the next clause and are printed at its indent")
+		} else {
+			e.Run.Check("R-HANG", "link: only clauses are given the indent of a body they do not end in", e.Prog.Pos(endDef.Pos()), bad == "",
+				"a node that is neither a CaseClause nor a CommClause has its end indent replaced by "+startN+"+1 when «"+bad+"»")
+		}
+	}
+	e.Run.Floor("R-HANG", "spoofed end indents in link", len(rs), 1)
+	_ = n
+}
+
+func mustParseExpr(s string) ast.Expr {
+	x, err := parser.ParseExpr(s)
+	if err != nil {
+		panic("mustParseExpr: " + s + ": " + err.Error())
+	}
+	return x
 }
 
 func returnsErrorResult(info *types.Info, fd *ast.FuncDecl) bool {
